@@ -4,6 +4,7 @@ import KyupyVerif.Proofs.Levelise
 import KyupyVerif.Proofs.Capture
 import KyupyVerif.Proofs.MapSound
 import KyupyVerif.Props.C08
+import KyupyVerif.Proofs.Grid
 /-! # C07 — the published level partition is a valid parallel schedule
 
 Signal level (all op programs — theorems): ops that are pairwise independent may run in any order
@@ -103,6 +104,39 @@ theorem threads_any_order {C} (l l' : List (Perm.Th C)) (hp : l.Perm l')
 /-- accumulated switching activity is the same for every thread order (addition commutes) -/
 theorem abuf_any_order (ab : Nat → Int) (cs cs' : List Wave.Contrib) (h : cs.Perm cs') :
     Wave.accumulate ab cs = Wave.accumulate ab cs' := Wave.accumulate_perm ab cs cs' h
+
+/-- GPU code path, kernel launch (model `Grid.launch` of the mock launcher's four nested loops with `_grid_dim` blocks,
+    tied to `MockCuda.jit` / `cdiv` / `_grid_dim` by exact correspondence of the launch order): for EVERY item count and
+    EVERY block shape the threads that pass the kernel guards are exactly the work items `(x, y)`, `x < n`, `y < m`, each
+    exactly once — no item is skipped, none is evaluated twice, no surplus thread does any work — and the grid is tight. -/
+theorem gpu_launch_covers (n m bx by_ : Nat) (hbx : 0 < bx) (hby : 0 < by_) :
+    (Grid.kernelThreads n m bx by_).Nodup ∧ (∀ p, p ∈ Grid.kernelThreads n m bx by_ ↔ p.1 < n ∧ p.2 < m) ∧
+    (Grid.kernelThreads n m bx by_).Perm (Grid.cpuLoop n m) ∧
+    (0 < n → (Grid.cdiv n bx - 1) * bx < n) ∧ (0 < m → (Grid.cdiv m by_ - 1) * by_ < m) :=
+  ⟨Grid.kernelThreads_nodup n m bx by_, fun _ => Grid.mem_kernelThreads hbx hby, Grid.kernelThreads_perm n m bx by_ hbx hby,
+   Grid.grid_tight n bx hbx, Grid.grid_tight m by_ hby⟩
+
+/-- … hence a kernel whose work items have pairwise disjoint footprints leaves the SAME whole memory as the CPU double
+    loop over the same items, for every block shape (and, by `threads_any_order`, for every order of the threads) -/
+theorem gpu_kernel_eq_cpu_loop {C} (th : Nat × Nat → Perm.Th C) (n m bx by_ : Nat) (hbx : 0 < bx) (hby : 0 < by_)
+    (hinj : ∀ p ∈ Grid.cpuLoop n m, ∀ q ∈ Grid.cpuLoop n m, th p = th q → p = q)
+    (hi : ∀ p ∈ Grid.cpuLoop n m, ∀ q ∈ Grid.cpuLoop n m, p ≠ q → Perm.indep (th p) (th q)) (mem : Perm.Mem C) :
+    Perm.runL ((Grid.kernelThreads n m bx by_).map th) mem = Perm.runL ((Grid.cpuLoop n m).map th) mem := by
+  have hp := Grid.kernelThreads_perm n m bx by_ hbx hby
+  have hmem : ∀ p, p ∈ Grid.kernelThreads n m bx by_ ↔ p ∈ Grid.cpuLoop n m := fun p => hp.mem_iff
+  refine Perm.runL_perm _ _ (hp.map th) ?_ ?_ mem
+  · intro s hs t ht hne
+    obtain ⟨p, hp1, rfl⟩ := List.mem_map.mp hs
+    obtain ⟨q, hq1, rfl⟩ := List.mem_map.mp ht
+    exact hi p ((hmem p).mp hp1) q ((hmem q).mp hq1) (fun e => hne (e ▸ rfl))
+  · rw [List.Nodup, List.pairwise_map]
+    refine List.Pairwise.imp_of_mem ?_ (Grid.kernelThreads_nodup n m bx by_)
+    intro p q hp1 hq1 hne e
+    exact hne (hinj p ((hmem p).mp hp1) q ((hmem q).mp hq1) e)
+
+/-- non-vacuity: 3 × 2 items with 2 × 2 blocks: 2 × 1 blocks = 8 launched threads, 6 of them active, in launch order -/
+example : Grid.kernelThreads 3 2 2 2 = [(0, 0), (0, 1), (1, 0), (1, 1), (2, 0), (2, 1)] ∧
+    (Grid.launch (Grid.cdiv 3 2) (Grid.cdiv 2 2) 2 2).length = 8 := by decide
 
 /-- non-vacuity: a level with three independent ops -/
 example : levelIndepB [⟨34952, 10, [0, 1, 9, 9]⟩, ⟨61166, 11, [0, 2, 9, 9]⟩, ⟨21845, 12, [3, 9, 9, 9]⟩] = true := by decide
